@@ -737,3 +737,35 @@ def check(contract):
         status = "ok"
     return dict(name=contract["name"], target=contract["target"], status=status, detail="", obligations=[o.as_dict() for o in obs], source_sha=ex.sha,
                 lines=ex.lines, seconds=0.0, cover=f"{len(obs)} sites")
+
+
+def summary_consistency(frames, summarises):
+    """Callee summaries vs the callees' own frame contracts: `summarises` maps (contract name, callee key) to the contract the summary stands
+    for; what the summary lets the callee mutate (receiver, positional / keyword arguments) must be allowed by that contract's `modifies`.
+    Returns a list of inconsistencies (strings).  Summaries not in the map stay assumptions (listed in the evidence)."""
+    by_name = {c["name"]: c for c in frames}
+    problems = []
+    for (cname, key), callee_name in summarises.items():
+        c, callee = by_name.get(cname), by_name.get(callee_name)
+        if c is None or callee is None or key not in c.get("callees", {}):
+            problems.append(f"summary map entry ({cname}, {key}) -> {callee_name} does not resolve")
+            continue
+        try:
+            ex = X.extract(callee["target"])
+        except LookupError:
+            continue
+        a = ex.node.args
+        params = [p.arg for p in a.posonlyargs + a.args + a.kwonlyargs]
+        is_method = bool(params) and params[0] in ("self", "cls")
+        allowed = {m.split(".")[0].split("[")[0] for m in callee.get("modifies", [])}
+        for m in c["callees"][key].get("mutates", []):
+            if m == "self":
+                name = "self" if is_method else None
+            elif isinstance(m, int):
+                pos = m + (1 if is_method else 0)
+                name = params[pos] if pos < len(params) else None
+            else:
+                name = m if m in params else None
+            if name is not None and name not in allowed:
+                problems.append(f"summary of `{key}` in {cname} lets it mutate `{name}`, which the contract of {callee_name} does not allow")
+    return problems
